@@ -185,7 +185,7 @@ def gen_csv(rng):
     fault = G.wchoice(rng, [(None, 70), ("missing", 5), ("zero_byte", 4), ("header_only", 4), ("blank_id", 8 if has_id else 0), ("dup_id", 8 if has_id else 0)])
     case = {"kind": "csv", "header": header, "layout": [t for t, _ in layout], "rows": rows, "delim": delim, "crlf": rng.random() < 0.3,
             "rank_cols": rank_cols, "id_col": [t for t, _ in layout].index("id") if has_id else None,
-            "reuse": rng.random() < 0.3, "default_delimiter": rng.random() < 0.5, "weight_col": [t for t, _ in layout].index("weight") if has_w else None, "fault": fault, "fault_row": rng.randrange(nrows), "fault_row2": rng.randrange(nrows), "id_style": id_style if has_id else None}
+            "reuse": rng.random() < 0.3, "blank_two": rng.random() < 0.5, "default_delimiter": rng.random() < 0.5, "weight_col": [t for t, _ in layout].index("weight") if has_w else None, "fault": fault, "fault_row": rng.randrange(nrows), "fault_row2": rng.randrange(nrows), "id_style": id_style if has_id else None}
     return case
 
 
@@ -236,6 +236,9 @@ def write_csv(case, path):
     f = case["fault"]
     if f == "blank_id":
         rows[case["fault_row"]][case["id_col"]] = ""
+        if case.get("blank_two") and len(rows) >= 2:
+            # several voters without an id: still "a blank voter id" (ValueError), not a duplicated one
+            rows[case["fault_row2"] if case["fault_row2"] != case["fault_row"] else (case["fault_row"] + 1) % len(rows)][case["id_col"]] = ""
     if f == "dup_id" and len(rows) >= 2:
         a, b = case["fault_row"], case["fault_row2"]
         if a == b:
